@@ -45,6 +45,21 @@ LEGACY = (
      "open end recursing into an open / '..' neighbour without guard"),
     ("ValueMapImplLegacyOct.cfg",
      "octal pattern without the digit 0"),
+    ("ValueMapImplLegacySkip.cfg",
+     "loop skipping '..' behind an open high end stops one entry early "
+     "('N..' followed by '..' as last entry rejected)"),
+    ("ValueMapImplLegacyTruthy.cfg",
+     "unclaimed entry tested by truthiness (empty Values string of the '..' "
+     "entry lost)"),
+)
+LEGACY_INV = {"ValueMapImplLegacyTruthy.cfg": "ImplEqualsClaimsE"}
+HIST_LEGACY = (
+    ("ValueMapHistImplShare.cfg", "HistOK",
+     "share_values_list: size reconciliation done in place on the class "
+     "object's Values qualifier (class object changed)"),
+    ("ValueMapHistImplShareB.cfg", "HistBehaviourOK",
+     "share_values_list: a later creation from the same class object sees "
+     "the reconciled array (no ModelError / stale fill string)"),
 )
 
 VAL_WORDS = ["Unknown", "Other", "OK", "Degraded", "Error", "DMTF Reserved",
@@ -75,17 +90,54 @@ def shapes_for(n, rng, mismatch):
 
 
 def case_from_ents(ents, tname, rng, mismatch=False, full=False, dup=False,
-                   origin=""):
-    nq, d = shapes_for(len(ents), rng, mismatch)
+                   origin="", shape=None, emp=None):
+    """shape = (number of Values, values_default) overrides the random shape;
+    emp = position of the Values string that is the empty string."""
+    nq, d = shape if shape is not None else \
+        shapes_for(len(ents), rng, mismatch)
     vals = make_vals(nq, rng, dup=dup)
-    if d is not None and vals and rng.random() < 0.15:
+    if shape is None and d is not None and vals and rng.random() < 0.15:
         d = rng.choice(vals)               # default equal to a Values string
+    if emp is not None and emp < len(vals):
+        vals[emp] = ""
     c = H.build_case(tname, ents, True, vals, d, rng, full=full)
     c["origin"] = origin
     return c
 
 
-def gen_cases(ctx, amaps2, amaps_sim):
+def empty_string_cases(idx, am, rng):
+    """The empty string as Values string (spec: VectorsE in ValueMapImpl.tla:
+    at any one position of Values and / or as values_default).  For every
+    '..' entry: its Values string is '' literally, and '' through
+    values_default (Values end right in front of it); for the other arrays
+    one member of VectorsE for every 8th array."""
+    n = len(am)
+    out = []
+    upos = [i for i, e in enumerate(am) if e["k"] == "U"]
+    for p in upos:
+        out.append(dict(shape=(n, None), emp=p))
+        out.append(dict(shape=(p, ""), emp=None))
+    if not upos and idx % 8 == 0:
+        q = rng.choice([x for x in (n - 1, n, n + 1) if x >= 0])
+        d = rng.choice(["", "dflt"] + ([None] if q == n else []))
+        emp = rng.randrange(q) if q and (d != "" or rng.random() < 0.5) \
+            else None
+        if emp is None and d != "":
+            d = ""
+        out.append(dict(shape=(q, d), emp=emp))
+    return out
+
+
+def with_empty(case, rng):
+    """Sometimes one Values string / values_default is the empty string."""
+    if case["vals"] and rng.random() < 0.12:
+        case["vals"][rng.randrange(len(case["vals"]))] = ""
+    if case["dflt"] is not None and rng.random() < 0.12:
+        case["dflt"] = ""
+    return case
+
+
+def gen_cases(ctx, amaps2, amaps_sim, amaps_u):
     quick = ctx.tier == "quick"
     rng = ctx.rng
     cases = []
@@ -104,22 +156,32 @@ def gen_cases(ctx, amaps2, amaps_sim):
                              "uint64", "sint64"])
             ents = H.concretize_abstract(am, tn, rng)
             cases.append(case_from_ents(ents, tn, rng, origin="tlc-enum-wide"))
+        for kw in empty_string_cases(idx, am, rng):
+            t8 = rng.choice(("uint8", "sint8"))
+            ents = H.concretize_abstract(am, t8, rng)
+            cases.append(case_from_ents(ents, t8, rng,
+                                        origin="tlc-enum-empty-string", **kw))
+    # (A2) every array (length <= 3 / 4 over the reduced alphabet) in which an
+    #      open end stands next to a '..' run: all neighbour combinations
+    for idx, am in enumerate(amaps_u):
+        tn = ("uint8", "sint8", rng.choice(H.TYPE_NAMES))[idx % 3]
+        ents = H.concretize_abstract(am, tn, rng)
+        cases.append(case_from_ents(ents, tn, rng,
+                                    origin="tlc-enum-open-end-next-to-unclaimed"))
     # (B) longer arrays simulated by TLC
     for am in amaps_sim:
         tn = rng.choice(H.TYPE_NAMES)
         ents = H.concretize_abstract(am, tn, rng)
-        cases.append(case_from_ents(ents, tn, rng,
-                                    mismatch=rng.random() < 0.3,
-                                    dup=rng.random() < 0.15,
-                                    origin="tlc-sim"))
+        cases.append(with_empty(case_from_ents(
+            ents, tn, rng, mismatch=rng.random() < 0.3,
+            dup=rng.random() < 0.15, origin="tlc-sim"), rng))
     # (C) seeded random arrays from the concrete grammar
     for _ in range(500 if quick else 8000):
         tn = rng.choice(H.TYPE_NAMES)
         ents = H.random_map(tn, rng)
-        cases.append(case_from_ents(ents, tn, rng,
-                                    mismatch=rng.random() < 0.25,
-                                    dup=rng.random() < 0.15,
-                                    origin="random"))
+        cases.append(with_empty(case_from_ents(
+            ents, tn, rng, mismatch=rng.random() < 0.25,
+            dup=rng.random() < 0.15, origin="random"), rng))
     # (D) no ValueMap / no Values
     for _ in range(60 if quick else 400):
         tn = rng.choice(H.TYPE_NAMES)
@@ -171,49 +233,111 @@ def mismatch_detail(ev):
         segs, [(i["k"], i["lo"], i["hi"], i["s"]) for i in ev["items"][:6]])
 
 
-def corruption_selftest(ctx, events, verdicts):
-    """Corrupt one field of an accepted recorded vector in three ways; TLC
-    must reject each (shows that the trace spec bites)."""
+def corrupt_vectors(events):
+    """Self-test material: up to 4 recorded vectors (chosen by shape), each
+    corrupted in three ways (tovalues result, items order, tobinary bound).
+    The corrupted copies are judged in the same TLC batch as the recorded
+    ones; see corruption_selftest."""
     import copy
-    pick = None
-    for ev, v in zip(events, verdicts):
+    out = []
+    for idx, ev in enumerate(events):
         strs = [i["s"] for i in ev["items"]]
-        if (v["ok"] and ev["ctor"] == "ok" and len(ev["items"]) >= 2 and
+        if not (ev["ctor"] == "ok" and len(ev["items"]) >= 2 and
                 len(set(strs)) == len(strs) and len(ev["vals"]) == len(strs)
+                and "" not in strs
                 and any(g["ok"] for g in ev["tv"])
                 and all(i["k"] == "S" for i in ev["items"])
                 and len(set(i["lo"] for i in ev["items"])) == len(strs)):
-            pick = ev
+            continue
+        a = copy.deepcopy(ev)
+        g = next(g for g in a["tv"] if g["ok"])
+        g["s"] = next(x for x in a["vals"] if x != g["s"])
+        b = copy.deepcopy(ev)
+        b["items"][0], b["items"][1] = b["items"][1], b["items"][0]
+        c = copy.deepcopy(ev)
+        rec = next(r for r in c["tb"] if r["k"] in ("S", "R"))
+        rec["hi"] += 1
+        if rec["k"] == "S":
+            rec["lo"] += 1
+        out.append((idx, [a, b, c]))
+        if len(out) == 4:
             break
-    if pick is None:
-        raise vlib.MachineryError("no accepted vector to corrupt")
-    a = copy.deepcopy(pick)
-    g = next(g for g in a["tv"] if g["ok"])
-    g["s"] = next(x for x in a["vals"] if x != g["s"])
-    b = copy.deepcopy(pick)
-    b["items"][0], b["items"][1] = b["items"][1], b["items"][0]
-    c = copy.deepcopy(pick)
-    rec = next(r for r in c["tb"] if r["k"] in ("S", "R"))
-    rec["hi"] += 1
-    if rec["k"] == "S":
-        rec["lo"] += 1
-    vs = ctx.validate_traces("ValueMapTrace", "ValueMapTrace.cfg",
-                             [[a], [b], [c]],
-                             label="self-test: corrupted recorded vectors "
-                             "must be rejected")
-    ctx.traces -= 3
-    ctx.events -= 3
-    want = ("Tovalues.EqualsClaims", "Items.EntriesInQualifierOrder",
-            "Tobinary.EntryOfString")
-    res = []
-    for name, v, w in zip(("tovalues result", "items order", "tobinary bound"),
-                          vs, want):
-        if v["ok"] or w not in v["clauses"]:
-            raise vlib.MachineryError(
-                "corrupted %s was not rejected by %s: %s" % (name, w, v))
-        res.append("corrupted %s -> rejected (%s)" % (name,
-                                                      ",".join(v["clauses"])))
-    ctx.extra["corruption_selftest"] = res
+    return out
+
+
+def corruption_selftest(ctx, material, verdicts, cverdicts, names, want,
+                        what, any_rejected):
+    """material = [(index of the recorded original, [corrupted copies])];
+    cverdicts aligned with the flattened copies.  For the first original
+    that TLC accepted every corrupted copy must be rejected by the expected
+    clause (shows that the trace spec bites)."""
+    k = 0
+    for idx, copies in material:
+        vs = cverdicts[k:k + len(copies)]
+        k += len(copies)
+        if not verdicts[idx]["ok"]:
+            continue
+        res = ctx.extra.setdefault("corruption_selftest", [])
+        for name, v, w in zip(names, vs, want):
+            if v["ok"] or w not in v["clauses"]:
+                raise vlib.MachineryError(
+                    "corrupted %s was not rejected by %s: %s" % (name, w, v))
+            res.append("corrupted %s -> rejected (%s)" %
+                       (name, ",".join(v["clauses"])))
+        return
+    if not any_rejected:
+        raise vlib.MachineryError("no accepted %s to corrupt" % what)
+    ctx.extra.setdefault("corruption_selftest", []).append(
+        "skipped for %s: none of the candidate originals was accepted" % what)
+
+
+def describe_hist(hc):
+    els = ["%s %s ValueMap=%s Values=%s" % (e["type"], e["kind"],
+                                            json.dumps(e["map"]),
+                                            json.dumps(e["vals"]))
+           for e in hc["els"]]
+    acts = ["%s(values_default=%r)" % (hc["els"][a["el"] - 1]["kind"],
+                                        a["dflt"]) for a in hc["acts"]]
+    return "one class object via %s [%s]; creations %s" % (
+        hc["via"], "; ".join(els), ", ".join(acts))
+
+
+def hist_tag(hc, k):
+    """Descriptive shape of the k-th creation of a history (signature only)."""
+    a = hc["acts"][k - 1]
+    el = hc["els"][a["el"] - 1]
+    n, nv = len(el["map"]), len(el["vals"])
+    size = "values-shorter" if nv < n else \
+        "values-longer" if nv > n else "sizes-equal"
+    before = [b for b in hc["acts"][:k - 1] if b["el"] == a["el"]]
+    prev = "first-creation" if not before else (
+        "after-default" if any(b["dflt"] is not None for b in before)
+        else "after-no-default")
+    return "%s:%s:%s" % (size, "default" if a["dflt"] is not None
+                         else "no-default", prev)
+
+
+def corrupt_histories(htraces):
+    """Self-test material: up to 4 recorded histories containing a creation
+    that raised ModelError without values_default, each corrupted in two
+    ways (class object's Values after a creation; that creation reports
+    'ok')."""
+    import copy
+    out = []
+    for idx, tr in enumerate(htraces):
+        if not (len(tr) >= 3 and any(e["ctor"] == "ModelError" and
+                                     not e["hasdflt"] for e in tr[1:])):
+            continue
+        a = copy.deepcopy(tr)
+        a[-1]["after"][0]["vals"] = a[-1]["after"][0]["vals"] + ["padding"]
+        b = copy.deepcopy(tr)
+        e = next(e for e in b[1:] if e["ctor"] == "ModelError"
+                 and not e["hasdflt"])
+        e["ctor"] = "ok"
+        out.append((idx, [a, b]))
+        if len(out) == 4:
+            break
+    return out
 
 
 def run(ctx):
@@ -232,19 +356,42 @@ def run(ctx):
         ctx.tlc("ValueMapImpl", cfg,
                 label="code-shaped machine (repaired design) = Claims for all "
                 "vectors: " + what)
+    ctx.tlc("ValueMapImpl",
+            "ValueMapImplEmpty.cfg" if quick else "ValueMapImplEmptyBig.cfg",
+            label="code-shaped machine = Claims when a Values string / "
+            "values_default is the empty string, all arrays <= 2 (%s "
+            "alphabet) x Values of 0..n+1 strings x position of the empty "
+            "string" % ("reduced" if quick else "full"))
+    ctx.tlc("ValueMapHistImpl",
+            "ValueMapHistImpl.cfg" if quick else "ValueMapHistImplBig.cfg",
+            label="histories of creations from one class object (copying "
+            "code-shaped machine): every creation judged against the class as "
+            "declared, class object unchanged; <= %d creations" %
+            (2 if quick else 4))
     ctx.exhaustive = True
     sens = []
     for cfg, what in LEGACY:
+        inv = LEGACY_INV.get(cfg, "ImplEqualsClaims")
         r = ctx.tlc("ValueMapImpl", cfg, must_pass=False, count=False,
                     label="regression config (must fail): " + what)
-        if r.violated != "ImplEqualsClaims":
-            raise vlib.MachineryError("%s did not violate ImplEqualsClaims: %s"
-                                      % (cfg, r.violated))
+        if r.violated != inv:
+            raise vlib.MachineryError("%s did not violate %s: %s"
+                                      % (cfg, inv, r.violated))
         cx = r.printed("CX")
         first = vlib.unset(cx[0]) if cx else None
         sens.append({"cfg": cfg, "variant": what,
-                     "violates": "ImplEqualsClaims",
+                     "violates": inv,
                      "first_counterexample": first})
+    for cfg, inv, what in HIST_LEGACY:
+        r = ctx.tlc("ValueMapHistImpl", cfg, must_pass=False, count=False,
+                    label="regression config (must fail): " + what)
+        if r.violated != inv:
+            raise vlib.MachineryError("%s did not violate %s: %s"
+                                      % (cfg, inv, r.violated))
+        cx = r.printed("CX")
+        sens.append({"cfg": cfg, "variant": what, "violates": inv,
+                     "first_counterexample":
+                     vlib.unset(cx[0]) if cx else None})
     ctx.extra["regression_configs"] = sens
 
     # ---- (2) abstract arrays from TLC --------------------------------------
@@ -254,31 +401,81 @@ def run(ctx):
     if len(amaps2) < 1800:
         raise vlib.MachineryError("expected >= 1800 arrays from TLC, got %d"
                                   % len(amaps2))
+    r = ctx.tlc("ValueMapImpl",
+                "ValueMapImplGenU.cfg" if quick else "ValueMapImplGenU4.cfg",
+                workers=1, count=False,
+                label="enumerate all arrays of length <= %d (reduced "
+                "alphabet) with an open end next to a '..' run (vector "
+                "source)" % (3 if quick else 4))
+    amaps_u = [json.loads(v[1]) for v in r.printed("VECU")]
+    if len(amaps_u) < 80:
+        raise vlib.MachineryError("expected >= 80 arrays with an open end "
+                                  "next to '..' from TLC, got %d"
+                                  % len(amaps_u))
     nsim = 400 if quick else 6000
     _, sims = ctx.simulate_behaviours("ValueMapImpl", "ValueMapImplSim.cfg",
                                       nsim, 6, var="map",
                                       label="simulate arrays of length 3..5")
     amaps_sim = [m[:ctx.rng.randint(3, 5)] for m in sims
                  if isinstance(m, list) and len(m) >= 3]
+    nhist = 200 if quick else 3000
+    _, plans = ctx.simulate_behaviours(
+        "ValueMapHistImpl", "ValueMapHistImplSim.cfg", nhist, 5, var="plan",
+        label="simulate histories of creations from one class object")
+    plans = [p for p in plans if isinstance(p, dict) and p.get("acts")]
+    if len(plans) < nhist // 2:
+        raise vlib.MachineryError("expected >= %d histories from TLC, got %d"
+                                  % (nhist // 2, len(plans)))
     t_mc = time.time() - t0
 
     # ---- (3) real code -----------------------------------------------------
     t1 = time.time()
-    cases = gen_cases(ctx, amaps2, amaps_sim)
+    cases = gen_cases(ctx, amaps2, amaps_sim, amaps_u)
     repo = H.Repo()
     events, infos = [], []
     for c in cases:
         ev, info = H.run_case(c, repo, random)
         events.append(ev)
         infos.append(info)
+    hcases = [H.build_hist_case(p, VAL_WORDS, ctx.rng) for p in plans]
+    htraces, hinfos = [], []
+    for hc in hcases:
+        tr, inf = H.run_hist_case(hc)
+        htraces.append(tr)
+        hinfos.append(inf)
     t_run = time.time() - t1
 
     # ---- (4) TLC judges ----------------------------------------------------
     t2 = time.time()
-    verdicts = validate(ctx, events, "vectors observed on pywbem.ValueMapping")
+    cmat = corrupt_vectors(events)
+    cevents = [c for _, cs in cmat for c in cs]
+    verdicts = validate(ctx, events + cevents,
+                        "vectors observed on pywbem.ValueMapping")
+    verdicts, cverdicts = verdicts[:len(events)], verdicts[len(events):]
+    hmat = corrupt_histories(htraces)
+    chist = [c for _, cs in hmat for c in cs]
+    hverdicts = ctx.validate_traces(
+        "ValueMapHistTrace", "ValueMapHistTrace.cfg", htraces + chist,
+        label="histories observed on pywbem.ValueMapping (one class object, "
+        "several creations)")
     t_val = time.time() - t2
 
-    corruption_selftest(ctx, events, verdicts)
+    hverdicts, chverdicts = hverdicts[:len(htraces)], hverdicts[len(htraces):]
+    ctx.traces -= len(cevents) + len(chist)
+    ctx.events -= len(cevents) + sum(len(t) for t in chist)
+    corruption_selftest(
+        ctx, cmat, verdicts, cverdicts,
+        ("tovalues result", "items order", "tobinary bound"),
+        ("Tovalues.EqualsClaims", "Items.EntriesInQualifierOrder",
+         "Tobinary.EntryOfString"), "vector",
+        any(not v["ok"] for v in verdicts))
+    corruption_selftest(
+        ctx, hmat, hverdicts, chverdicts,
+        ("history (class object after a creation)",
+         "history (size mismatch without values_default accepted)"),
+        ("History.ClassObjectUnchanged",
+         "Malformed.RaisesModelErrorOrValueError"), "history",
+        any(not v["ok"] for v in hverdicts))
 
     by_origin, by_type, by_ctor = {}, {}, {}
     nprobe = 0
@@ -296,6 +493,63 @@ def run(ctx):
                              "trace_validation": round(t_val, 1)}
     ctx.actions_bound = {"for_" + k: sum(1 for c in cases if c["kind"] == k)
                          for k in ("property", "method", "parameter")}
+    hstat = {"histories": len(hcases),
+             "creations": sum(len(hc["acts"]) for hc in hcases),
+             "by_connection": {}, "creations_by_kind": {}}
+    for hc, inf in zip(hcases, hinfos):
+        hstat["by_connection"][hc["via"]] = \
+            hstat["by_connection"].get(hc["via"], 0) + 1
+        for a in hc["acts"]:
+            k = hc["els"][a["el"] - 1]["kind"]
+            hstat["creations_by_kind"][k] = \
+                hstat["creations_by_kind"].get(k, 0) + 1
+        nprobe += sum(i["nprobes"] for i in inf)
+    ctx.extra["histories"] = hstat
+    ctx.extra["tovalues_calls_judged"] = nprobe
+    # histories rejected only because the class object changed: what do the
+    # later creations DO?  (second verdict with `after` not judged)
+    objonly = [i for i, v in enumerate(hverdicts)
+               if not v["ok"] and
+               v["clauses"] == ["History.ClassObjectUnchanged"]]
+    hjobs = list(zip(hcases, htraces, hinfos, hverdicts))
+    if objonly:
+        import copy
+        again = []
+        for i in objonly:
+            tr = copy.deepcopy(htraces[i])
+            for e in tr:
+                e["judgeobj"] = False
+            again.append(tr)
+        vs = ctx.validate_traces(
+            "ValueMapHistTrace", "ValueMapHistTrace.cfg", again,
+            label="histories with a changed class object: behaviour of the "
+            "later creations")
+        ctx.traces -= len(again)
+        ctx.events -= sum(len(t) for t in again)
+        hjobs += [(hcases[i], tr, hinfos[i], v)
+                  for i, tr, v in zip(objonly, again, vs)]
+    for hc, tr, inf, v in hjobs:
+        if v["ok"]:
+            continue
+        at = v["at"]                      # 1 = Declare, k+1 = k-th creation
+        ev = tr[at - 1]
+        clauses = v["clauses"]
+        sig = "History:%s:%s:%s" % ("+".join(clauses), ev["ctor"],
+                                    hist_tag(hc, at - 1))
+        what = "%s: creation %d of %d: %s" % (
+            describe_hist(hc), at - 1, len(hc["acts"]),
+            "factory raised %s (%s)" % (ev["ctor"], inf[at - 2]["exc"][:100])
+            if ev["ctor"] != "ok" else mismatch_detail(ev))
+        what += "; class object afterwards: %s [%s]" % (
+            json.dumps([a["vals"] for a in ev["after"]]), ", ".join(clauses))
+        ctx.report(sig, what, {"hist": hc, "trace": tr, "clauses": clauses})
+    if hcases:
+        hc, tr = hcases[0], htraces[0]
+        ctx.sample({"history": {"via": hc["via"], "acts": hc["acts"],
+                                "elements": [{k: e[k] for k in
+                                              ("type", "kind", "map", "vals")}
+                                             for e in hc["els"]]},
+                    "ctors": [e["ctor"] for e in tr[1:]]})
 
     drift = 0
     for c, ev, info, v in zip(cases, events, infos, verdicts):
@@ -358,6 +612,21 @@ def run(ctx):
 
 
 def replay(rep):
+    if "hist" in rep["case"]:
+        hc = rep["case"]["hist"]
+        print("replaying %s" % describe_hist(hc))
+        tr, inf = H.run_hist_case(hc)
+        print("factories: %s" % [e["ctor"] for e in tr[1:]])
+        ctx = vlib.Ctx(rep["property"] + "_replay", "quick",
+                       rep.get("seed", 0))
+        v = ctx.validate_traces("ValueMapHistTrace", "ValueMapHistTrace.cfg",
+                                [tr])[0]
+        print("verdict:", v)
+        if not v["ok"]:
+            print("VIOLATION property=%s replay=(reproduced) %s" %
+                  (rep["property"], v["clauses"]))
+            return 1
+        return 0
     case = rep["case"]["case"]
     print("replaying %s" % describe(case))
     repo = H.Repo()
